@@ -1,6 +1,6 @@
 (** Tie by translation, Statistics (C14 / C06): the methods generated from the CURRENT source of
     physt/statistics.py (Gen/PyStats.v) are the model's functions (Model/Arith.v, Model/ScaleCases.v). *)
-From Physt Require Import TieBase PyStats Arith ScaleCases.
+From Physt Require Import TieBase PyStats Arith ScaleCases StatsCases.
 
 Definition to_stats (s : @pystats xnum) : stats :=
   mkStats (ps_sum s) (ps_sum2 s) (ps_min s) (ps_max s) (ps_weight s) (ps_median s).
@@ -67,4 +67,14 @@ Proof.
     rewrite Hn. f_equal.
     assert (Hwn : w <> 0) by (intros E; subst w; rewrite Qceqb_refl in Hw0; discriminate).
     field. split; assumption.
+Qed.
+
+(** the statistics update inside Histogram1D.fill *)
+Lemma xlt_xltb a b : xlt a b = xltb a b. Proof. destruct a, b; reflexivity. Qed.
+Theorem gen_fill_stats_is_model : forall s v w,
+  to_stats (g_fill_stats xarith s (Fin v) (Fin w)) = fill_stats (to_stats s) v w.
+Proof.
+  intros s v w. unfold g_fill_stats, fill_stats, to_stats, py_min, py_max.
+  cbn [ps_sum ps_sum2 ps_min ps_max ps_weight ps_median st_sum st_sum2 st_min st_max st_weight st_median fadd fmul flt fnan xarith xmul].
+  rewrite !xlt_xltb. reflexivity.
 Qed.
